@@ -52,7 +52,12 @@ PROPS = {
     'C14': dict(suites=[('hash', [])], column='kv', relevant=lambda r: r['name'] in HASH_CMDS, title='Hash commands'),
     'C15': dict(suites=[('list', [])], column='kv', relevant=lambda r: r['name'] in LIST_CMDS, title='List commands'),
     'C16': dict(suites=[('set', [])], column='kv', relevant=lambda r: r['name'] in SET_CMDS, title='Set commands'),
-    'C08': dict(suites=[('evict', [])], column='ev', clscol='ecls', relevant=lambda r: True, title='Max-memory policy'),
+    'C08': dict(suites=[('evict', [])], column='ev', clscol='ecls', relevant=lambda r: True, title='Max-memory policy',
+                assumptions=['schedule: every asynchronous cache update completes before the next keyspace primitive of the same command (forced through verifhook points); per-database adjustMemoryUsage goroutines serialised, every order of them tried by the driver',
+                             'heap stamps are wall-clock milliseconds: compared up to order, with every split of consecutive readings into equal/later tried',
+                             'usage = the figure the server accounts (memUsed); its agreement with the dataset is C19',
+                             'random policies: victims read off the observed survivors and checked for admissibility; MSET of several keys under a limit skipped (map order)',
+                             'a command is declared hung after 2.5 s of non-GC process CPU or 4000 scheduler polls without progress; background panics are observed as the death of a child process']),
     'C19': dict(suites=ALL_DATA, column='mem', clscol='mcls', relevant=lambda r: True, title='Memory figure is a function of the dataset'),
     'C20': dict(suites=ALL_DATA, column='iso', relevant=lambda r: True, title='Logical databases are isolated'),
 }
@@ -496,7 +501,8 @@ def decide(cx, prop, tier, seed, t_start):
 
     # 1. a spec rejection outside the listed findings (or a listed class failing differently from the model)
     if rejs_unknown:
-        r0 = sorted(rejs_unknown, key=lambda r: int(re.sub(r'\D', '', r['seq'].rsplit('.', 1)[-1]) or 0))[0]
+        # rejections outside every listed class first, then the shortest history
+        r0 = sorted(rejs_unknown, key=lambda r: (r['f'].get(clscol) in known_classes, int(re.sub(r'\D', '', r['seq'].rsplit('.', 1)[-1]) or 0)))[0]
         emit_violation('spec-rejection', r0, 'spec verdict %s class %s; %d such transitions' % (r0['f'].get(col), r0['f'].get(clscol), len(rejs_unknown)), True)
     # 2. model/implementation disagreement with the spec still satisfied at those transitions
     elif diffs:
@@ -548,7 +554,7 @@ def decide(cx, prop, tier, seed, t_start):
     if leanchecker_note:
         cov['leanchecker'] = leanchecker_note
     ev = dict(property_id=prop, tier=tier, seed=seed, level=level, coverage=cov,
-              assumptions=['float64 modelled as exact decimals on the ≤15-digit / dyadic domain; transitions outside are skipped and counted in model_skips',
+              assumptions=spec.get('assumptions') or ['float64 modelled as exact decimals on the ≤15-digit / dyadic domain; transitions outside are skipped and counted in model_skips',
                            'Go map iteration order and goroutine scheduling below the keyspace primitives are not exercised by this suite',
                            'virtual clock at millisecond granularity'],
               wall_s=round(time.time() - t_start, 2), violations=len(violations))
